@@ -117,6 +117,14 @@ META = {
         "note": "The harness owns schedule granularity at the level of channel operations it performs itself; interleavings inside the relay goroutine are the Go scheduler's.",
         "technique": "property-based testing (rapid) over schedules with a prefix/shutdown oracle",
     },
+    "C19": {
+        "text": "Round-trip and idempotence properties over reflectively generated objects of the whole modelled schema, plus the annotation codecs over all of "
+                "int32 and arbitrary annotation maps, plus a coverage-guided fuzz leg over raw JSON. Exploration suits it: the oracles (identity, "
+                "idempotence, union) are exact and the interesting inputs are shapes (nil vs empty, present vs absent).",
+        "design_ref": "DESIGN.md section 3, C19",
+        "note": "Only JSON-representable values are generated; see assumptions.",
+        "technique": "round-trip / idempotence property-based testing (rapid reflection generator) + native go fuzzing of JSON input",
+    },
 }
 
 _pending = "check not built yet in this round of the build; planned per DESIGN.md section 3 (generated-input search applies)"
